@@ -198,6 +198,8 @@ def install(B, LenV):
             if it.pos < len(it.items):
                 it.pos += 1
                 return it.items[it.pos - 1]
+        elif isinstance(it, CountV):
+            return it.take(1)[0]
         else:
             raise Raised(self.mkexc("TypeError", f"{self.typename(it)!r} object is not an iterator"))
         if default is not MISSING:
@@ -210,6 +212,14 @@ def install(B, LenV):
 
     @method
     def f_zip(self, I, *xs, strict=False):
+        if any(isinstance(x, CountV) for x in xs):
+            finite = [I.iterate(x) for x in xs if not isinstance(x, CountV)]
+            if not finite:
+                raise Unknown("zip of infinite iterators only")
+            n_ = min(len(l) for l in finite)
+            fi = iter(finite)
+            ls = [x.take(n_) if isinstance(x, CountV) else next(fi)[:n_] for x in xs]
+            return IterV([Seq(list(t), "tuple") for t in zip(*ls)])
         ls = [I.iterate(x) for x in xs]
         if strict and len({len(l) for l in ls}) > 1:
             raise Raised(self.mkexc("ValueError", "zip() arguments have different lengths"))
@@ -844,7 +854,11 @@ def install(B, LenV):
             return _EXT_CONST[full]
         h = _EXT_FUNCS.get(full)
         if h is not None:
-            return Builtin(full, lambda I, *a, _h=h, **k: _h(self, I, *a, **k))
+            b_ = Builtin(full, lambda I, *a, _h=h, **k: _h(self, I, *a, **k))
+            sub = {k_[len(full) + 1:]: v_ for k_, v_ in _EXT_FUNCS.items() if k_.startswith(full + ".")}
+            if sub:
+                b_.attrs = {n_: Builtin(full + "." + n_, lambda I, *a, _h=v_, **k: _h(self, I, *a, **k)) for n_, v_ in sub.items()}
+            return b_
         if full in _EXT_TYPES:
             return self.types[_EXT_TYPES[full]]
         if full in _EXT_SUBMODULES or mod.name in ("os", "collections", "importlib", "xml", "concurrent") and name in ("path", "abc", "util", "etree", "futures"):
@@ -976,6 +990,166 @@ def _rand(tag):
 
 def _wraps(B, I, wrapped, *a, **k):
     return Builtin("functools.wraps", lambda I_, f: f)
+
+
+class CountV:
+    """itertools.count(start, step): an infinite iterator; only consumers that bound it are modelled (zip, compress, islice, next)"""
+
+    def __init__(self, start=0, step=1):
+        self.cur, self.step = start, step
+
+    def take(self, n):
+        out = [self.cur + i * self.step for i in range(n)]
+        self.cur += n * self.step
+        return out
+
+    def __repr__(self):
+        return f"count({self.cur})"
+
+
+def _count(B, I, start=0, step=1):
+    if not isinstance(start, (int, float)) or not isinstance(step, (int, float)):
+        raise Unknown("itertools.count with symbolic arguments")
+    return CountV(start, step)
+
+
+def _compress(B, I, data, selectors):
+    sel = I.iterate(selectors)
+    d = data.take(len(sel)) if isinstance(data, CountV) else I.iterate(data)
+    return IterV([x for x, s_ in zip(d, sel) if I.truth(s_)])
+
+
+def _product(B, I, *xs, repeat=1):
+    import itertools as _it
+    pools = [I.iterate(x) for x in xs] * repeat
+    return IterV([Seq(list(t), "tuple") for t in _it.product(*pools)])
+
+
+def _repeat(B, I, x, times=None):
+    if times is None:
+        raise Unknown("itertools.repeat without a count")
+    return IterV([x] * times)
+
+
+def _starmap(B, I, f, it):
+    return IterV([I.call(f, list(I.iterate(t)), {}) for t in I.iterate(it)])
+
+
+def _zip_longest(B, I, *xs, fillvalue=None):
+    import itertools as _it
+    return IterV([Seq(list(t), "tuple") for t in _it.zip_longest(*[I.iterate(x) for x in xs], fillvalue=fillvalue)])
+
+
+def _chain_from_iterable(B, I, xs):
+    out = []
+    for x in I.iterate(xs):
+        out.extend(I.iterate(x))
+    return IterV(out)
+
+
+# ---- dataclasses
+class _Missing:
+    def __repr__(self):
+        return "MISSING"
+
+
+_DC_MISSING = _Missing()
+
+
+def _dc_field(B, I, *, default=_DC_MISSING, default_factory=_DC_MISSING, init=True, repr=True, hash=None, compare=True, metadata=None, kw_only=False):
+    f = ExtV("dataclasses.Field")
+    f.methods["__strict__"] = True
+    f.attrs.update(default=default, default_factory=default_factory, init=init, compare=compare)
+    return f
+
+
+def _dataclass(B, I, cls=None, **opts):
+    """dataclasses.dataclass: __init__ from the annotated class attributes in order (inherited dataclass fields first), defaults and
+    default factories, __post_init__; __eq__ over the compared fields unless eq=False; a generated __repr__ is an opaque atom."""
+    import ast as _ast
+
+    def wrap(c):
+        if not isinstance(c, ClassV) or c.node is None:
+            raise Unknown("dataclass on something that is not a class statement")
+        fields = []
+        for base in reversed(c.mro[1:]):
+            for fn, fd in base.dict.get("__dataclass_fields__", []):
+                fields = [(n, d) for n, d in fields if n != fn] + [(fn, fd)]
+        for st in c.node.body:
+            if isinstance(st, _ast.AnnAssign) and isinstance(st.target, _ast.Name):
+                ann = _ast.unparse(st.annotation)
+                if "ClassVar" in ann:
+                    continue
+                name = st.target.id
+                dflt = c.dict.get(name, _DC_MISSING) if st.value is not None else _DC_MISSING
+                fields = [(n, d) for n, d in fields if n != name] + [(name, dflt)]
+                if isinstance(dflt, ExtV) and dflt.name == "dataclasses.Field":
+                    if dflt.attrs["default"] is not _DC_MISSING:
+                        c.dict[name] = dflt.attrs["default"]
+                    else:
+                        c.dict.pop(name, None)
+        c.dict["__dataclass_fields__"] = fields
+
+        def init(I_, self_, *args, **kw):
+            names = [n for n, d in fields if not (isinstance(d, ExtV) and d.name == "dataclasses.Field" and not d.attrs["init"])]
+            if len(args) > len(names):
+                raise Raised(B.mkexc("TypeError", f"__init__() takes {len(names) + 1} positional arguments but {len(args) + 1} were given"))
+            given = dict(zip(names, args))
+            for k_, v_ in kw.items():
+                if k_ not in names:
+                    raise Raised(B.mkexc("TypeError", f"__init__() got an unexpected keyword argument {k_!r}"))
+                if k_ in given:
+                    raise Raised(B.mkexc("TypeError", f"__init__() got multiple values for argument {k_!r}"))
+                given[k_] = v_
+            for n, d in fields:
+                if n in given:
+                    v_ = given[n]
+                elif isinstance(d, ExtV) and d.name == "dataclasses.Field":
+                    if d.attrs["default_factory"] is not _DC_MISSING:
+                        v_ = I_.call(d.attrs["default_factory"], [], {})
+                    elif d.attrs["default"] is not _DC_MISSING:
+                        v_ = d.attrs["default"]
+                    else:
+                        raise Raised(B.mkexc("TypeError", f"__init__() missing 1 required positional argument: {n!r}"))
+                elif d is not _DC_MISSING:
+                    v_ = d
+                else:
+                    raise Raised(B.mkexc("TypeError", f"__init__() missing 1 required positional argument: {n!r}"))
+                if opts.get("frozen"):
+                    self_.fields[n] = v_
+                else:
+                    I_.setattr(self_, n, v_)
+            post, owner = c.lookup("__post_init__")
+            if post is not None:
+                I_.call(post, [self_], {})
+            return None
+        if opts.get("init", True) and "__init__" not in c.dict:
+            c.dict["__init__"] = Builtin(c.name + ".__init__", init, cls=c)
+        if opts.get("eq", True) and "__eq__" not in c.dict:
+            cmp_names = [n for n, d in fields if not (isinstance(d, ExtV) and d.name == "dataclasses.Field" and not d.attrs["compare"])]
+
+            def eq(I_, a, b):
+                if not (isinstance(b, Obj) and b.cls is a.cls):
+                    return B.NOTIMPL
+                return all(I_.eq(I_.getattr(a, n), I_.getattr(b, n)) for n in cmp_names)
+            c.dict["__eq__"] = Builtin(c.name + ".__eq__", eq, cls=c)
+            if "__hash__" not in c.dict:
+                if opts.get("frozen") or opts.get("unsafe_hash"):
+                    c.dict["__hash__"] = Builtin(c.name + ".__hash__", lambda I_, a: B.f_hash(I_, Seq([I_.getattr(a, n) for n in cmp_names], "tuple")), cls=c)
+                else:
+                    c.dict["__hash__"] = None
+        if opts.get("repr", True) and "__repr__" not in c.dict:
+            c.dict["__repr__"] = Builtin(c.name + ".__repr__", lambda I_, a: mkstr([SAtom("DataclassRepr", a)]), cls=c)
+        if opts.get("frozen"):
+            def frozen_set(I_, a, n, v):
+                raise Raised(B.mkexc("AttributeError", f"cannot assign to field {n!r}"))
+            c.dict["__setattr__"] = Builtin(c.name + ".__setattr__", frozen_set, cls=c)
+        if opts.get("order"):
+            raise Unknown("dataclass(order=True)")
+        return c
+    if cls is not None:
+        return wrap(cls)
+    return Builtin("dataclass(...)", lambda I_, c: wrap(c))
 
 
 def _itertools_chain(B, I, *xs):
@@ -1210,6 +1384,15 @@ _EXT_FUNCS = {
     "random.randrange": _rand("randrange"), "random.choices": _rand("choices"),
     "functools.wraps": _wraps,
     "itertools.chain": _itertools_chain,
+    "itertools.chain.from_iterable": _chain_from_iterable,
+    "itertools.count": _count,
+    "itertools.compress": _compress,
+    "itertools.product": _product,
+    "itertools.repeat": _repeat,
+    "itertools.starmap": _starmap,
+    "itertools.zip_longest": _zip_longest,
+    "dataclasses.dataclass": _dataclass,
+    "dataclasses.field": _dc_field,
     "re.compile": _re_compile,
     "collections.defaultdict": _defaultdict,
     "contextlib.suppress": _suppress,
